@@ -1,5 +1,6 @@
 //! cteverif: correspondence harness. Calls the real code of /repo in-process, writes one
 //! case per line (input + what the implementation did) for the Lean driver and the comparator.
+mod bdlgen;
 mod corpus;
 mod genmodel;
 mod props;
@@ -63,6 +64,7 @@ fn main() {
         "c16" => props::c16::run(&args),
         "c17" => props::c17::run(&args),
         "c18" => props::c18::run(&args),
+        "c02" => props::c02::run(&args),
         "c19" => props::c19::run(&args),
         "c20" => props::c20::run(&args),
         "ind" => props::ind::run(&args),
